@@ -1896,6 +1896,8 @@ class Machine:
                     raise EngineError(f"call of {key}: a local closure is passed as {n}; the area has no closure contract")
                 bound[n] = hook(self, v.obj, c.params.get(n, ""))
         for n, sname in c.params.items():
+            if n in bound and sname.startswith(("Dict[", "ODict[", "Set[")) and isinstance(bound[n], VHeapRef):
+                continue          # a dict / set handed over by reference: the callee's contract speaks about the caller's cell
             if n in bound and not sname.startswith(("py:", "cls:", "Tuple[", "List[", "Deque[", "Iter[")):
                 try:
                     bound[n] = get_sort(sname).coerce(bound[n] if not isinstance(bound[n], VHeapRef) else self.ctx.cell(bound[n].addr).value)  # type: ignore[union-attr]
